@@ -232,6 +232,12 @@ def run(ctx):
     ctx.expect(len(app) >= 2 and all('.wav' in up(c) and any(f_ in up(c) for f_ in (flux_names or {'flux'})) for c in app), 'CFG-13', 'each curve is (wavelength, interpolated flux) of the scaled SED', where(plot, app[0] if app else lp),
                '%d append sites: column_stack([s.wav, flux...])' % len(app), 'lines appended: %s' % [up(c)[:70] for c in app], 'line-content')
     common.check_ownership(ctx, only=('plot',))
+    # the stored extinction law survives the fit file unchanged, and get_av is the normalised law (results passed as a file)
+    from . import c14, c13
+    c14.check_state(ctx)
+    c14.check_get_av(ctx)
+    # the composite (interp) curve: each filter wavelength paired with that filter's aperture
+    c13.check_variable(ctx)
 
 
 PL = 'sedfitter/plot.py'
